@@ -202,8 +202,21 @@ def validate(c, scripts, obs, label):
         results = list(ex.map(lambda bb: validate_batch(c, scripts, obs, bb[0], label, bb[1]), batches))
     nrej = 0
     nearly = 0
+    cfgstr = lambda sc: json.dumps({"%s/%s" % (p["sig"], p["name"]): dict(r=p["r"], p=p["p"], e=p["e"]) for p in sc["pipes"]}, sort_keys=True)
     for acc, rej, early in results:
         c.traces_validated += acc
+        # (1) lifetimes TLC could not explain: a call the ordering rules of the statement do not allow
+        for i, at, ev in rej:
+            nrej += 1
+            if nrej > 5:
+                continue
+            tl = trace_lines(scripts[i], obs[i])
+            c.violation("lifetime not allowed by the start/stop ordering rules at event %d %s; configuration %s, script %s"
+                        % (at, json.dumps(ev, sort_keys=True), cfgstr(scripts[i]),
+                           json.dumps(dict(failStart=scripts[i]["failStart"], failShut=scripts[i]["failShut"], exts=scripts[i]["exts"],
+                                           deps=scripts[i]["deps"], shared=scripts[i]["shared"]))),
+                        replay_obj=dict(script=scripts[i], trace=tl, at=at))
+        # (2) the narrow, separately reported clause: inner object of a shared receiver started too early
         for i, at in early:
             nearly += 1
             if c.extra.get("shared_receiver_started_early_lifetimes", 0) + nearly > 3:
@@ -211,23 +224,10 @@ def validate(c, scripts, obs, label):
             tl = trace_lines(scripts[i], obs[i])
             c.violation("a receiver shared between signals (sharedcomponent) started its inner object at event %d %s while a consumer of "
                         "another of its signals had not been started; configuration %s shared %s"
-                        % (at, json.dumps(tl[at], sort_keys=True),
-                           json.dumps({"%s/%s" % (p["sig"], p["name"]): dict(r=p["r"], p=p["p"], e=p["e"]) for p in scripts[i]["pipes"]}, sort_keys=True),
-                           scripts[i]["shared"]),
+                        % (at, json.dumps(tl[at], sort_keys=True), cfgstr(scripts[i]), scripts[i]["shared"]),
                         replay_obj=dict(script=scripts[i], trace=tl, at=at), signature=SIG_SHARED)
     if nearly:
         c.extra["shared_receiver_started_early_lifetimes"] = c.extra.get("shared_receiver_started_early_lifetimes", 0) + nearly
-        for i, at, ev in rej:
-            nrej += 1
-            if nrej > 5:
-                continue
-            tl = trace_lines(scripts[i], obs[i])
-            c.violation("lifetime not allowed by the start/stop ordering rules at event %d %s; configuration %s, script %s"
-                        % (at, json.dumps(ev, sort_keys=True),
-                           json.dumps({"%s/%s" % (p["sig"], p["name"]): dict(r=p["r"], p=p["p"], e=p["e"]) for p in scripts[i]["pipes"]}, sort_keys=True),
-                           json.dumps(dict(failStart=scripts[i]["failStart"], failShut=scripts[i]["failShut"], exts=scripts[i]["exts"],
-                                           deps=scripts[i]["deps"], shared=scripts[i]["shared"]))),
-                        replay_obj=dict(script=scripts[i], trace=tl, at=at))
     return nrej
 
 
